@@ -4,14 +4,49 @@
 What is translated (and nothing else): literal tables and the small arithmetic kernels on
 which every layout depends. Control flow is hand-modelled in coq/model and tied to the code by
 the correspondence harness. Any construct the translator does not know makes it exit non-zero,
-naming the construct — a changed shape of the source is a broken tie, never a silent skip."""
+naming the construct — a changed shape of the source is a broken tie, never a silent skip.
+
+The output has one section per family of sources: py (prophy/*.py, the Python runtime), pc
+(prophyc/model.py), cpp (prophy_cpp headers), prec (the precedence tables of the two expression
+parsers). VERIF_FAMILIES (comma separated; default: all) names the families the property being
+checked is about: those are translated from the current tree, fail-closed; the other sections are
+taken from the committed reference translation of the unchanged tree (coq/ref/Src.v), so that a
+change confined to sources a property does not depend on can neither break that property's proof
+obligations nor stop its check (if the reference is missing they are translated as well)."""
 import ast
 import os
 import re
 import sys
 
 REPO = os.environ.get("PROPHY_REPO", "/repo")
-OUT = os.path.join(os.path.dirname(os.path.dirname(os.path.abspath(__file__))), "coq", "gen", "Src.v")
+COQ = os.path.join(os.path.dirname(os.path.dirname(os.path.abspath(__file__))), "coq")
+OUT = os.environ.get("TRANSLATE_OUT", os.path.join(COQ, "gen", "Src.v"))
+REF = os.path.join(COQ, "ref", "Src.v")
+FAMILIES = ("py", "pc", "cpp", "prec")
+NAMES = ["u8", "u16", "u32", "u64", "i8", "i16", "i32", "i64", "r32", "r64"]
+
+
+def marker(fam):
+    return "(* ==== section %s ==== *)" % fam
+
+
+def reference_sections():
+    """the per-family sections of the committed reference translation of the unchanged tree, or None"""
+    try:
+        with open(REF) as f:
+            text = f.read()
+    except OSError:
+        return None
+    secs = {}
+    for i, fam in enumerate(FAMILIES):
+        a = text.find(marker(fam))
+        if a < 0:
+            return None
+        b = text.find(marker(FAMILIES[i + 1])) if i + 1 < len(FAMILIES) else len(text)
+        if b < 0:
+            return None
+        secs[fam] = text[a + len(marker(fam)):b].strip("\n").split("\n")
+    return secs
 
 
 class Unsupported(Exception):
@@ -180,7 +215,253 @@ def func_to_coq(fn, coq_name, params_env):
 
 # ------------------------------------------------------------------ the extraction
 
+def sec_py(w):
+    names = NAMES
+    # ---- prophy/composite.py: distance_to_next_multiply
+    comp = parse("prophy/composite.py")
+    fn = find_def(comp, "distance_to_next_multiply")
+    args = [a.arg for a in fn.args.args]
+    if args != ["number", "alignment"]:
+        raise Unsupported("distance_to_next_multiply signature %s" % args)
+    w("(* prophy/composite.py distance_to_next_multiply *)")
+    w("Definition py_dist (number alignment : Z) : Z := %s." %
+      func_to_coq(fn, "py_dist", {"number": "number", "alignment": "alignment"}))
+    fa = find_def(comp, "field_alignment")
+    if not (len(fa.body) == 2 and isinstance(fa.body[1], ast.Return) and isinstance(fa.body[1].value, ast.IfExp)):
+        raise Unsupported("field_alignment body")
+    ife = fa.body[1].value
+    if not (attr_path(ife.test) == "type_._OPTIONAL" and attr_path(ife.body) == "type_._OPTIONAL_ALIGNMENT"
+            and attr_path(ife.orelse) == "type_._ALIGNMENT"):
+        raise Unsupported("field_alignment expression")
+    w("(* prophy/composite.py field_alignment *)")
+    w("Definition py_field_alignment (optional : bool) (opt_alignment alignment : Z) : Z :=")
+    w("  if optional then opt_alignment else alignment.")
+    w("")
+
+    # ---- prophy/scalar.py: the numeric table
+    sc = parse("prophy/scalar.py")
+    table = {}
+    for node in sc.body:
+        if isinstance(node, ast.ClassDef) and node.decorator_list:
+            d = node.decorator_list[0]
+            if isinstance(d, ast.Call) and isinstance(d.func, ast.Name) and d.func.id in ("int_decorator", "float_decorator"):
+                kw = {k.arg: k.value for k in d.keywords}
+                size = const_eval(kw["size"])
+                fmt = kw["id_"].value
+                if d.func.id == "int_decorator":
+                    table[node.name] = (size, fmt, const_eval(kw["min_"]), const_eval(kw["max_"]))
+                else:
+                    table[node.name] = (size, fmt, None, None)
+    if sorted(table) != sorted(names):
+        raise Unsupported("scalar classes %s" % sorted(table))
+    w("(* prophy/scalar.py int_decorator / float_decorator table *)")
+    w("Definition py_size (k : sk) : Z := match k with %s end." %
+      " | ".join("%s => %d" % (n.upper(), table[n][0]) for n in names))
+    w("Definition py_min (k : sk) : Z := match k with %s end." %
+      " | ".join("%s => %s" % (n.upper(), "(%d)" % table[n][2] if table[n][2] is not None else "0") for n in names))
+    w("Definition py_max (k : sk) : Z := match k with %s end." %
+      " | ".join("%s => %s" % (n.upper(), "%d" % table[n][3] if table[n][3] is not None else "(-1)") for n in names))
+    # struct format characters: signedness / width as CPython's struct module defines them
+    FMT = {'b': (1, True), 'B': (1, False), 'h': (2, True), 'H': (2, False), 'i': (4, True), 'I': (4, False),
+           'q': (8, True), 'Q': (8, False), 'f': (4, False), 'd': (8, False)}
+    for n in names:
+        if table[n][1] not in FMT:
+            raise Unsupported("struct format %r" % table[n][1])
+    w("Definition py_fmt_size (k : sk) : Z := match k with %s end." %
+      " | ".join("%s => %d" % (n.upper(), FMT[table[n][1]][0]) for n in names))
+    w("Definition py_fmt_signed (k : sk) : bool := match k with %s end." %
+      " | ".join("%s => %s" % (n.upper(), "true" if FMT[table[n][1]][1] else "false") for n in names))
+    nd = find_def(sc, "numeric_decorator")
+    al = single_assign(nd, "cls._ALIGNMENT")
+    sz = single_assign(nd, "cls._SIZE")
+    w("Definition py_num_alignment (size : Z) : Z := %s." % zexpr(al, {"size": "size"}))
+    w("Definition py_num_size (size : Z) : Z := %s." % zexpr(sz, {"size": "size"}))
+    dec = find_def(nd, "decode")
+    cond = [s for s in dec.body if isinstance(s, ast.If)]
+    if len(cond) != 1:
+        raise Unsupported("numeric decode guard")
+    w("(* numeric_decorator.decode: `if (len(data) - pos) < size: raise ProphyError` *)")
+    w("Definition py_num_short (len_data pos size : Z) : bool := %s." %
+      bexpr(cond[0].test, {"len": (lambda a: "len_data"), "data": "data", "pos": "pos", "size": "size"}))
+    enumcls = [n for n in sc.body if isinstance(n, ast.ClassDef) and n.name == "enum"]
+    if len(enumcls) != 1 or [attr_path(b) if isinstance(b, ast.Attribute) else b.id for b in enumcls[0].bases] != ["u32"]:
+        raise Unsupported("enum base class")
+    w("Definition py_enum_base : sk := U32.")
+    w("")
+
+    # ---- prophy/optional.py
+    op = parse("prophy/optional.py")
+    fn = find_def(op, "optional")
+    oa = single_assign(fn, "_optional._OPTIONAL_ALIGNMENT")
+    os_ = single_assign(fn, "_optional._OPTIONAL_SIZE")
+    ot = single_assign(fn, "_optional._optional_type")
+    if attr_path(ot) != "scalar.u32":
+        raise Unsupported("optional flag type")
+    w("(* prophy/optional.py *)")
+    w("Definition py_opt_alignment (alignment : Z) : Z := %s." %
+      zexpr(oa, {"scalar.u32._ALIGNMENT": "(py_num_alignment (py_size U32))", "cls._ALIGNMENT": "alignment"}))
+    w("Definition py_opt_size (opt_alignment size : Z) : Z := %s." %
+      zexpr(os_, {"_optional._OPTIONAL_ALIGNMENT": "opt_alignment", "cls._SIZE": "size"}))
+    w("")
+
+    # ---- prophy/generators.py: union attributes, array guard
+    ge = parse("prophy/generators.py")
+    ug = find_def(ge, "union_generator", "add_attributes")
+    ua = single_assign(ug, "cls._ALIGNMENT")
+    if not (isinstance(ua, ast.Call) and ua.func.id == "max" and attr_path(ua.args[0]) == "u32._ALIGNMENT"):
+        raise Unsupported("union alignment expression")
+    w("(* prophy/generators.py union_generator.add_attributes *)")
+    w("Definition py_union_alignment (max_arm_alignment : Z) : Z := Z.max (py_num_alignment (py_size U32)) max_arm_alignment.")
+    ns = single_assign(ug, "natural_size")
+    if not (isinstance(ns, ast.BinOp) and isinstance(ns.op, ast.Add) and attr_path(ns.left) == "cls._ALIGNMENT"):
+        raise Unsupported("union natural_size expression")
+    us = single_assign(ug, "cls._SIZE")
+    w("Definition py_union_size (alignment max_arm_size : Z) : Z :=")
+    w("  let natural_size := alignment + max_arm_size in %s." %
+      zexpr(us, {"natural_size": "natural_size", "cls._ALIGNMENT": "alignment",
+                 "distance_to_next_multiply": (lambda a, b: "(py_dist %s %s)" % (a, b))}))
+    bl = find_def(ge, "build_container_length_field", "_decode")
+    g = single_assign(bl, "array_guard")
+    w("Definition py_array_guard : Z := %d." % const_eval(g))
+    conds = [s for s in bl.body if isinstance(s, ast.If)]
+    if len(conds) != 2:
+        raise Unsupported("container_len._decode guards")
+    w("Definition py_guard_exceeded (value : Z) : bool := %s." %
+      bexpr(conds[0].test, {"value": "value", "array_guard": "py_array_guard"}))
+    w("Definition py_len_negative (value : Z) : bool := %s." % bexpr(conds[1].test, {"value": "value"}))
+    w("")
+
+    # ---- prophy/container.py: array attributes
+    co = parse("prophy/container.py")
+    ar = find_def(co, "array", "_array")
+    w("(* prophy/container.py array()._array *)")
+    w("Definition py_array_size (size elem_size : Z) : Z := %s." %
+      zexpr(single_assign(ar, "_SIZE"), {"size": "size", "type_._SIZE": "elem_size"}))
+    w("Definition py_array_alignment (elem_alignment : Z) : Z := %s." %
+      zexpr(single_assign(ar, "_ALIGNMENT"), {"type_._ALIGNMENT": "elem_alignment"}))
+    w("")
+
+
+
+def sec_pc(w):
+    names = NAMES
+    # ---- prophyc/model.py
+    mo = parse("prophyc/model.py")
+    bs = single_assign(mo, "BUILTIN_SIZES")
+    sizes = {k.value: const_eval(v) for k, v in zip(bs.keys, bs.values)}
+    if sorted(sizes) != sorted(names + ["byte"]):
+        raise Unsupported("BUILTIN_SIZES keys %s" % sorted(sizes))
+    w("(* prophyc/model.py *)")
+    w("Definition pc_builtin_size (k : sk) : Z := match k with %s end." %
+      " | ".join("%s => %d" % (n.upper(), sizes[n]) for n in names))
+    w("Definition pc_byte_size : Z := %d." % sizes["byte"])
+    for cname in ("DISC_SIZE", "ENUM_SIZE"):
+        v = single_assign(mo, cname)
+        if not (isinstance(v, ast.Subscript) and attr_path(v.value) == "BUILTIN_SIZES"):
+            raise Unsupported(cname)
+        key = v.slice.value if isinstance(v.slice, ast.Constant) else v.slice.value.value
+        w("Definition pc_%s : Z := %d." % (cname.lower(), sizes[key]))
+    kinds = find_def(mo, "Kind")
+    kv = {t.targets[0].id: const_eval(t.value) for t in kinds.body if isinstance(t, ast.Assign)}
+    if kv != {"FIXED": 0, "DYNAMIC": 1, "UNLIMITED": 2}:
+        raise Unsupported("Kind values %s" % kv)
+    w("Definition pc_kind_order_ok : bool := true.  (* Kind.FIXED < DYNAMIC < UNLIMITED *)")
+    es = find_def(mo, "evaluate_sizes")
+    eo = find_def(es, "evaluate_array_and_optional_size")
+    w("Definition pc_opt_alignment (alignment : Z) : Z := %s." %
+      zexpr(single_assign(eo, "member.alignment"), {"DISC_SIZE": "pc_disc_size", "member.alignment": "alignment"}))
+    vals = assigns_to(eo, "member.byte_size")
+    if len(vals) != 2:
+        raise Unsupported("evaluate_array_and_optional_size assignments")
+    w("Definition pc_opt_size (byte_size alignment : Z) : Z := %s." %
+      zexpr(vals[1], {"member.byte_size": "byte_size", "member.alignment": "alignment"}))
+    arr = vals[0]
+    # member.numeric_size and (member.byte_size * member.numeric_size) or 0
+    if not (isinstance(arr, ast.BoolOp) and isinstance(arr.op, ast.Or) and isinstance(arr.values[0], ast.BoolOp)):
+        raise Unsupported("array size expression")
+    inner = arr.values[0]
+    if not (attr_path(inner.values[0]) == "member.numeric_size"):
+        raise Unsupported("array size expression (and)")
+    w("Definition pc_array_size (byte_size numeric_size : Z) : Z :=")
+    w("  (* `numeric_size and (byte_size * numeric_size) or %s` with numeric_size None/0 ~ 0 *)" % zexpr(arr.values[1], {}))
+    w("  if (numeric_size =? 0) then %s else let p := %s in if (p =? 0) then %s else p." % (
+        zexpr(arr.values[1], {}),
+        zexpr(inner.values[1], {"member.byte_size": "byte_size", "member.numeric_size": "numeric_size"}),
+        zexpr(arr.values[1], {})))
+    ss = find_def(es, "evaluate_struct_size")
+    pads = assigns_to(ss, "padding")
+    if len(pads) != 2:
+        raise Unsupported("evaluate_struct_size padding assignments")
+    w("Definition pc_member_padding (alignment byte_size : Z) : Z := %s." %
+      zexpr(pads[0], {"member.alignment": "alignment", "byte_size": "byte_size"}))
+    w("Definition pc_final_padding (alignment byte_size : Z) : Z := %s." %
+      zexpr(pads[1], {"alignment": "alignment", "byte_size": "byte_size"}))
+    us = find_def(es, "evaluate_union_size")
+    uvals = assigns_to(us, "node_.byte_size")
+    if len(uvals) != 2:
+        raise Unsupported("evaluate_union_size assignments")
+    w("Definition pc_union_round (byte_size alignment : Z) : Z := %s." %
+      zexpr(uvals[1], {"node_.byte_size": "byte_size", "node_.alignment": "alignment"}))
+    w("")
+
+
+
+def sec_cpp(w):
+    # ---- C++ headers: nearest<N>, align<N>
+    with open(os.path.join(REPO, "prophy_cpp/include/prophy/detail/byte_size.hpp")) as f:
+        h = f.read()
+    m = re.search(r"inline T nearest\(T x\)\s*\{\s*return \(x \+ N - 1\) & ~T\(N - 1\);\s*\}", h)
+    if not m:
+        raise Unsupported("byte_size.hpp nearest<N>")
+    w("(* prophy_cpp detail/byte_size.hpp nearest<N>: (x + N - 1) & ~T(N - 1), on naturals *)")
+    w("Definition cpp_nearest (N x : Z) : Z := Z.land (x + N - 1) (Z.lnot (N - 1)).")
+    with open(os.path.join(REPO, "prophy_cpp/include/prophy/detail/align.hpp")) as f:
+        h = f.read()
+    m = re.search(r"enum \{ mask = Alignment - 1 \};\s*return reinterpret_cast<uint8_t\*>\(\(reinterpret_cast<uintptr_t>\(ptr\) \+ mask\) & ~uintptr_t\(mask\)\);", h)
+    if not m:
+        raise Unsupported("align.hpp align<N>")
+    w("Definition cpp_align (N ptr : Z) : Z := let mask := N - 1 in Z.land (ptr + mask) (Z.lnot mask).")
+    w("")
+
+
+
+def sec_prec(w):
+    # ---- precedence tables of the two expression parsers
+    def prec_table(tree, cls):
+        c = find_def(tree, cls)
+        v = single_assign(c, "precedence")
+        rows = []
+        for row in v.elts:
+            rows.append([e.value for e in row.elts])
+        return rows
+    pp = prec_table(parse("prophyc/parsers/prophy.py"), "Parser")
+    pc = prec_table(parse("prophyc/calc.py"), "Calc")
+    TOK = {'+': 1, '-': 2, '*': 3, '/': 4, 'LSHIFT': 5, 'RSHIFT': 6, 'UMINUS': 7, '|': 8}
+
+    def prec_coq(rows):
+        items = []
+        for level, row in enumerate(rows):
+            assoc = {'left': 0, 'right': 1, 'nonassoc': 2}[row[0]]
+            for tok in row[1:]:
+                if tok not in TOK:
+                    raise Unsupported("precedence token %r" % tok)
+                items.append("(%d, (%d, %d))" % (TOK[tok], level, assoc))
+        return "[%s]" % "; ".join(items)
+    w("(* operator token -> (precedence level, associativity 0=left 1=right); tokens: + 1, - 2, * 3, / 4, << 5, >> 6, unary- 7, | 8 *)")
+    w("Definition prec_prophy : list (Z * (Z * Z)) := %s." % prec_coq(pp))
+    w("Definition prec_calc : list (Z * (Z * Z)) := %s." % prec_coq(pc))
+
+
+SECTIONS = {"py": sec_py, "pc": sec_pc, "cpp": sec_cpp, "prec": sec_prec}
+
+
 def main():
+    want = os.environ.get("VERIF_FAMILIES", "all").strip()
+    selected = set(FAMILIES) if want in ("", "all") else set(x for x in want.split(",") if x and x != "none")
+    unknown = selected - set(FAMILIES)
+    if unknown:
+        die("unknown family %s" % sorted(unknown))
+    ref = reference_sections()
     out = []
     w = out.append
     w("(* GENERATED by /verif/tools/translate.py from the current /repo working tree — do not edit. *)")
@@ -189,235 +470,25 @@ def main():
     w("Import ListNotations.")
     w("Local Open Scope Z_scope.")
     w("")
-    try:
-        # ---- prophy/composite.py: distance_to_next_multiply
-        comp = parse("prophy/composite.py")
-        fn = find_def(comp, "distance_to_next_multiply")
-        args = [a.arg for a in fn.args.args]
-        if args != ["number", "alignment"]:
-            raise Unsupported("distance_to_next_multiply signature %s" % args)
-        w("(* prophy/composite.py distance_to_next_multiply *)")
-        w("Definition py_dist (number alignment : Z) : Z := %s." %
-          func_to_coq(fn, "py_dist", {"number": "number", "alignment": "alignment"}))
-        fa = find_def(comp, "field_alignment")
-        if not (len(fa.body) == 2 and isinstance(fa.body[1], ast.Return) and isinstance(fa.body[1].value, ast.IfExp)):
-            raise Unsupported("field_alignment body")
-        ife = fa.body[1].value
-        if not (attr_path(ife.test) == "type_._OPTIONAL" and attr_path(ife.body) == "type_._OPTIONAL_ALIGNMENT"
-                and attr_path(ife.orelse) == "type_._ALIGNMENT"):
-            raise Unsupported("field_alignment expression")
-        w("(* prophy/composite.py field_alignment *)")
-        w("Definition py_field_alignment (optional : bool) (opt_alignment alignment : Z) : Z :=")
-        w("  if optional then opt_alignment else alignment.")
+    for fam in FAMILIES:
+        w(marker(fam))
+        if fam not in selected and ref is not None:
+            out.extend(ref[fam])         # not a family of the property being checked: the unchanged tree's translation
+            w("")
+            continue
+        lines = []
+        try:
+            SECTIONS[fam](lines.append)
+        except Unsupported as e:
+            die("unsupported source shape (%s sources): %s" % (fam, e))
+        except (KeyError, IndexError, AttributeError, TypeError, OSError, SyntaxError) as e:
+            die("unexpected source shape (%s sources): %s: %s" % (fam, type(e).__name__, e))
+        while lines and lines[-1] == "":
+            lines.pop()
+        out.extend(lines)
         w("")
-
-        # ---- prophy/scalar.py: the numeric table
-        sc = parse("prophy/scalar.py")
-        table = {}
-        for node in sc.body:
-            if isinstance(node, ast.ClassDef) and node.decorator_list:
-                d = node.decorator_list[0]
-                if isinstance(d, ast.Call) and isinstance(d.func, ast.Name) and d.func.id in ("int_decorator", "float_decorator"):
-                    kw = {k.arg: k.value for k in d.keywords}
-                    size = const_eval(kw["size"])
-                    fmt = kw["id_"].value
-                    if d.func.id == "int_decorator":
-                        table[node.name] = (size, fmt, const_eval(kw["min_"]), const_eval(kw["max_"]))
-                    else:
-                        table[node.name] = (size, fmt, None, None)
-        names = ["u8", "u16", "u32", "u64", "i8", "i16", "i32", "i64", "r32", "r64"]
-        if sorted(table) != sorted(names):
-            raise Unsupported("scalar classes %s" % sorted(table))
-        w("(* prophy/scalar.py int_decorator / float_decorator table *)")
-        w("Definition py_size (k : sk) : Z := match k with %s end." %
-          " | ".join("%s => %d" % (n.upper(), table[n][0]) for n in names))
-        w("Definition py_min (k : sk) : Z := match k with %s end." %
-          " | ".join("%s => %s" % (n.upper(), "(%d)" % table[n][2] if table[n][2] is not None else "0") for n in names))
-        w("Definition py_max (k : sk) : Z := match k with %s end." %
-          " | ".join("%s => %s" % (n.upper(), "%d" % table[n][3] if table[n][3] is not None else "(-1)") for n in names))
-        # struct format characters: signedness / width as CPython's struct module defines them
-        FMT = {'b': (1, True), 'B': (1, False), 'h': (2, True), 'H': (2, False), 'i': (4, True), 'I': (4, False),
-               'q': (8, True), 'Q': (8, False), 'f': (4, False), 'd': (8, False)}
-        for n in names:
-            if table[n][1] not in FMT:
-                raise Unsupported("struct format %r" % table[n][1])
-        w("Definition py_fmt_size (k : sk) : Z := match k with %s end." %
-          " | ".join("%s => %d" % (n.upper(), FMT[table[n][1]][0]) for n in names))
-        w("Definition py_fmt_signed (k : sk) : bool := match k with %s end." %
-          " | ".join("%s => %s" % (n.upper(), "true" if FMT[table[n][1]][1] else "false") for n in names))
-        nd = find_def(sc, "numeric_decorator")
-        al = single_assign(nd, "cls._ALIGNMENT")
-        sz = single_assign(nd, "cls._SIZE")
-        w("Definition py_num_alignment (size : Z) : Z := %s." % zexpr(al, {"size": "size"}))
-        w("Definition py_num_size (size : Z) : Z := %s." % zexpr(sz, {"size": "size"}))
-        dec = find_def(nd, "decode")
-        cond = [s for s in dec.body if isinstance(s, ast.If)]
-        if len(cond) != 1:
-            raise Unsupported("numeric decode guard")
-        w("(* numeric_decorator.decode: `if (len(data) - pos) < size: raise ProphyError` *)")
-        w("Definition py_num_short (len_data pos size : Z) : bool := %s." %
-          bexpr(cond[0].test, {"len": (lambda a: "len_data"), "data": "data", "pos": "pos", "size": "size"}))
-        enumcls = [n for n in sc.body if isinstance(n, ast.ClassDef) and n.name == "enum"]
-        if len(enumcls) != 1 or [attr_path(b) if isinstance(b, ast.Attribute) else b.id for b in enumcls[0].bases] != ["u32"]:
-            raise Unsupported("enum base class")
-        w("Definition py_enum_base : sk := U32.")
-        w("")
-
-        # ---- prophy/optional.py
-        op = parse("prophy/optional.py")
-        fn = find_def(op, "optional")
-        oa = single_assign(fn, "_optional._OPTIONAL_ALIGNMENT")
-        os_ = single_assign(fn, "_optional._OPTIONAL_SIZE")
-        ot = single_assign(fn, "_optional._optional_type")
-        if attr_path(ot) != "scalar.u32":
-            raise Unsupported("optional flag type")
-        w("(* prophy/optional.py *)")
-        w("Definition py_opt_alignment (alignment : Z) : Z := %s." %
-          zexpr(oa, {"scalar.u32._ALIGNMENT": "(py_num_alignment (py_size U32))", "cls._ALIGNMENT": "alignment"}))
-        w("Definition py_opt_size (opt_alignment size : Z) : Z := %s." %
-          zexpr(os_, {"_optional._OPTIONAL_ALIGNMENT": "opt_alignment", "cls._SIZE": "size"}))
-        w("")
-
-        # ---- prophy/generators.py: union attributes, array guard
-        ge = parse("prophy/generators.py")
-        ug = find_def(ge, "union_generator", "add_attributes")
-        ua = single_assign(ug, "cls._ALIGNMENT")
-        if not (isinstance(ua, ast.Call) and ua.func.id == "max" and attr_path(ua.args[0]) == "u32._ALIGNMENT"):
-            raise Unsupported("union alignment expression")
-        w("(* prophy/generators.py union_generator.add_attributes *)")
-        w("Definition py_union_alignment (max_arm_alignment : Z) : Z := Z.max (py_num_alignment (py_size U32)) max_arm_alignment.")
-        ns = single_assign(ug, "natural_size")
-        if not (isinstance(ns, ast.BinOp) and isinstance(ns.op, ast.Add) and attr_path(ns.left) == "cls._ALIGNMENT"):
-            raise Unsupported("union natural_size expression")
-        us = single_assign(ug, "cls._SIZE")
-        w("Definition py_union_size (alignment max_arm_size : Z) : Z :=")
-        w("  let natural_size := alignment + max_arm_size in %s." %
-          zexpr(us, {"natural_size": "natural_size", "cls._ALIGNMENT": "alignment",
-                     "distance_to_next_multiply": (lambda a, b: "(py_dist %s %s)" % (a, b))}))
-        bl = find_def(ge, "build_container_length_field", "_decode")
-        g = single_assign(bl, "array_guard")
-        w("Definition py_array_guard : Z := %d." % const_eval(g))
-        conds = [s for s in bl.body if isinstance(s, ast.If)]
-        if len(conds) != 2:
-            raise Unsupported("container_len._decode guards")
-        w("Definition py_guard_exceeded (value : Z) : bool := %s." %
-          bexpr(conds[0].test, {"value": "value", "array_guard": "py_array_guard"}))
-        w("Definition py_len_negative (value : Z) : bool := %s." % bexpr(conds[1].test, {"value": "value"}))
-        w("")
-
-        # ---- prophy/container.py: array attributes
-        co = parse("prophy/container.py")
-        ar = find_def(co, "array", "_array")
-        w("(* prophy/container.py array()._array *)")
-        w("Definition py_array_size (size elem_size : Z) : Z := %s." %
-          zexpr(single_assign(ar, "_SIZE"), {"size": "size", "type_._SIZE": "elem_size"}))
-        w("Definition py_array_alignment (elem_alignment : Z) : Z := %s." %
-          zexpr(single_assign(ar, "_ALIGNMENT"), {"type_._ALIGNMENT": "elem_alignment"}))
-        w("")
-
-        # ---- prophyc/model.py
-        mo = parse("prophyc/model.py")
-        bs = single_assign(mo, "BUILTIN_SIZES")
-        sizes = {k.value: const_eval(v) for k, v in zip(bs.keys, bs.values)}
-        if sorted(sizes) != sorted(names + ["byte"]):
-            raise Unsupported("BUILTIN_SIZES keys %s" % sorted(sizes))
-        w("(* prophyc/model.py *)")
-        w("Definition pc_builtin_size (k : sk) : Z := match k with %s end." %
-          " | ".join("%s => %d" % (n.upper(), sizes[n]) for n in names))
-        w("Definition pc_byte_size : Z := %d." % sizes["byte"])
-        for cname in ("DISC_SIZE", "ENUM_SIZE"):
-            v = single_assign(mo, cname)
-            if not (isinstance(v, ast.Subscript) and attr_path(v.value) == "BUILTIN_SIZES"):
-                raise Unsupported(cname)
-            key = v.slice.value if isinstance(v.slice, ast.Constant) else v.slice.value.value
-            w("Definition pc_%s : Z := %d." % (cname.lower(), sizes[key]))
-        kinds = find_def(mo, "Kind")
-        kv = {t.targets[0].id: const_eval(t.value) for t in kinds.body if isinstance(t, ast.Assign)}
-        if kv != {"FIXED": 0, "DYNAMIC": 1, "UNLIMITED": 2}:
-            raise Unsupported("Kind values %s" % kv)
-        w("Definition pc_kind_order_ok : bool := true.  (* Kind.FIXED < DYNAMIC < UNLIMITED *)")
-        es = find_def(mo, "evaluate_sizes")
-        eo = find_def(es, "evaluate_array_and_optional_size")
-        w("Definition pc_opt_alignment (alignment : Z) : Z := %s." %
-          zexpr(single_assign(eo, "member.alignment"), {"DISC_SIZE": "pc_disc_size", "member.alignment": "alignment"}))
-        vals = assigns_to(eo, "member.byte_size")
-        if len(vals) != 2:
-            raise Unsupported("evaluate_array_and_optional_size assignments")
-        w("Definition pc_opt_size (byte_size alignment : Z) : Z := %s." %
-          zexpr(vals[1], {"member.byte_size": "byte_size", "member.alignment": "alignment"}))
-        arr = vals[0]
-        # member.numeric_size and (member.byte_size * member.numeric_size) or 0
-        if not (isinstance(arr, ast.BoolOp) and isinstance(arr.op, ast.Or) and isinstance(arr.values[0], ast.BoolOp)):
-            raise Unsupported("array size expression")
-        inner = arr.values[0]
-        if not (attr_path(inner.values[0]) == "member.numeric_size"):
-            raise Unsupported("array size expression (and)")
-        w("Definition pc_array_size (byte_size numeric_size : Z) : Z :=")
-        w("  (* `numeric_size and (byte_size * numeric_size) or %s` with numeric_size None/0 ~ 0 *)" % zexpr(arr.values[1], {}))
-        w("  if (numeric_size =? 0) then %s else let p := %s in if (p =? 0) then %s else p." % (
-            zexpr(arr.values[1], {}),
-            zexpr(inner.values[1], {"member.byte_size": "byte_size", "member.numeric_size": "numeric_size"}),
-            zexpr(arr.values[1], {})))
-        ss = find_def(es, "evaluate_struct_size")
-        pads = assigns_to(ss, "padding")
-        if len(pads) != 2:
-            raise Unsupported("evaluate_struct_size padding assignments")
-        w("Definition pc_member_padding (alignment byte_size : Z) : Z := %s." %
-          zexpr(pads[0], {"member.alignment": "alignment", "byte_size": "byte_size"}))
-        w("Definition pc_final_padding (alignment byte_size : Z) : Z := %s." %
-          zexpr(pads[1], {"alignment": "alignment", "byte_size": "byte_size"}))
-        us = find_def(es, "evaluate_union_size")
-        uvals = assigns_to(us, "node_.byte_size")
-        if len(uvals) != 2:
-            raise Unsupported("evaluate_union_size assignments")
-        w("Definition pc_union_round (byte_size alignment : Z) : Z := %s." %
-          zexpr(uvals[1], {"node_.byte_size": "byte_size", "node_.alignment": "alignment"}))
-        w("")
-
-        # ---- C++ headers: nearest<N>, align<N>
-        with open(os.path.join(REPO, "prophy_cpp/include/prophy/detail/byte_size.hpp")) as f:
-            h = f.read()
-        m = re.search(r"inline T nearest\(T x\)\s*\{\s*return \(x \+ N - 1\) & ~T\(N - 1\);\s*\}", h)
-        if not m:
-            raise Unsupported("byte_size.hpp nearest<N>")
-        w("(* prophy_cpp detail/byte_size.hpp nearest<N>: (x + N - 1) & ~T(N - 1), on naturals *)")
-        w("Definition cpp_nearest (N x : Z) : Z := Z.land (x + N - 1) (Z.lnot (N - 1)).")
-        with open(os.path.join(REPO, "prophy_cpp/include/prophy/detail/align.hpp")) as f:
-            h = f.read()
-        m = re.search(r"enum \{ mask = Alignment - 1 \};\s*return reinterpret_cast<uint8_t\*>\(\(reinterpret_cast<uintptr_t>\(ptr\) \+ mask\) & ~uintptr_t\(mask\)\);", h)
-        if not m:
-            raise Unsupported("align.hpp align<N>")
-        w("Definition cpp_align (N ptr : Z) : Z := let mask := N - 1 in Z.land (ptr + mask) (Z.lnot mask).")
-        w("")
-
-        # ---- precedence tables of the two expression parsers
-        def prec_table(tree, cls):
-            c = find_def(tree, cls)
-            v = single_assign(c, "precedence")
-            rows = []
-            for row in v.elts:
-                rows.append([e.value for e in row.elts])
-            return rows
-        pp = prec_table(parse("prophyc/parsers/prophy.py"), "Parser")
-        pc = prec_table(parse("prophyc/calc.py"), "Calc")
-        TOK = {'+': 1, '-': 2, '*': 3, '/': 4, 'LSHIFT': 5, 'RSHIFT': 6, 'UMINUS': 7, '|': 8}
-
-        def prec_coq(rows):
-            items = []
-            for level, row in enumerate(rows):
-                assoc = {'left': 0, 'right': 1, 'nonassoc': 2}[row[0]]
-                for tok in row[1:]:
-                    if tok not in TOK:
-                        raise Unsupported("precedence token %r" % tok)
-                    items.append("(%d, (%d, %d))" % (TOK[tok], level, assoc))
-            return "[%s]" % "; ".join(items)
-        w("(* operator token -> (precedence level, associativity 0=left 1=right); tokens: + 1, - 2, * 3, / 4, << 5, >> 6, unary- 7, | 8 *)")
-        w("Definition prec_prophy : list (Z * (Z * Z)) := %s." % prec_coq(pp))
-        w("Definition prec_calc : list (Z * (Z * Z)) := %s." % prec_coq(pc))
-    except Unsupported as e:
-        die("unsupported source shape: %s" % e)
-    except (KeyError, IndexError, AttributeError, TypeError) as e:
-        die("unexpected source shape: %s: %s" % (type(e).__name__, e))
+    while out and out[-1] == "":
+        out.pop()
 
     text = "\n".join(out) + "\n"
     os.makedirs(os.path.dirname(OUT), exist_ok=True)
